@@ -135,3 +135,22 @@ pub fn check_clean(ctx: &mut Ctx, enc: &Encoded) -> R {
     ctx.api(6, nframes as u64 & 0xf);
     Ok(())
 }
+
+/// the clean half over generator-made files: every block-size / sample-rate / bit-depth coding,
+/// variable blocking, subframe alternatives the crate's encoder never emits — the structural parser must
+/// accept every frame, report its offset, re-serialise it to the same bytes (the coding chosen by the
+/// foreign writer must survive) and expand it to the PCM
+pub fn run_gen(ctx: &mut Ctx) -> R {
+    let ch = ctx.ch.clone();
+    let Some(fx) = crate::scen_rd::make_foreign_fixture(&ch, true) else {
+        ctx.skip_foreign("generator-made file could not be built");
+        return Ok(());
+    };
+    ctx.describe(|| format!("generator-made file {}B table={:?} ch={} bits={} frames={}", fx.bytes.len(), fx.shape, fx.pcm.channels, fx.pcm.bps, fx.pcm.frames));
+    let file = ctx.disk.create(fx.bytes.clone());
+    let enc = Encoded { cfg: fx.cfg, pcm: fx.pcm, kind: crate::world::WKind::Sample, file, media: fx.bytes, pre_finalize: Vec::new() };
+    let r = check_clean(ctx, &enc);
+    let nt = ctx.disk.0.borrow().frame_sized_transfers > 0;
+    ctx.eval(0, nt);
+    r
+}
